@@ -430,5 +430,5 @@ def stages(tier):
     return extra + [
         {"name": "grid", "kind": "enum", "batch": True, "gen": grid_gen, "run": grid_run, "shards": 16, "exhaustive": True},
         {"name": "compounds", "kind": "hyp", "strategy": compounds_strategy, "run": compounds_run,
-         "examples": {"quick": 2500, "thorough": 60000}, "shards": 16},
+         "examples": {"quick": 2500, "thorough": 250000}, "shards": 16},
     ]
